@@ -9,7 +9,7 @@ NPTS = {'for': 2, 'if': 2, 'try': 2, 'tryexc': 2, 'semi': 2, 'semiemit': 2, 'mul
         'asyncfor': 2, 'comment': 0, 'blankprompt': 0, 'directive': 0, 'defhelper': 0, 'defemit': 0, 'defclass': 0,
         'asyncdef': 0, 'badcompile': 0, 'usename': 0, 'useG': 0, 'useshadow': 0, 'delconst': 0, 'hasconst': 0,
         'decodef2': 2, 'chainexc': 2, 'bgtask': 3, 'useclass': 0, 'trysibling': 2, 'regappend': 0, 'keepout': 0, 'const': 0, 'loopval': 0, 'defreprclass': 0, 'reprexpr': 0}
-MULTILINE_FORMS = {'bgtask', 'trysibling', 'chainexc', 'withswap', 'defreprclass', 'for', 'if', 'with', 'try', 'tryexc', 'multiline', 'multicall', 'tq', 'tqprint', 'defhelper',
+MULTILINE_FORMS = {'bgtask', 'trysibling', 'chainexc', 'withswap', 'defreprclass', 'tqdirective', 'for', 'if', 'with', 'try', 'tryexc', 'multiline', 'multicall', 'tq', 'tqprint', 'defhelper',
                    'defemit', 'asyncwith', 'asyncfor', 'asyncdef', 'defclass', 'decoclass', 'decoasync', 'decodef2'}
 # forms in which a point may raise without the doctest's own code handling it
 TB_FORMS = {'expr', 'print', 'emit', 'multiline', 'assign', 'callmod', 'callmod_expr', 'callhelper',
@@ -37,6 +37,7 @@ NOMINAL_EXCS = [
     {'exc': 'SimError', 'msg': 'boom %s'},
     {'exc': 'ValueError', 'msg': 'boom %s went wrong.'},
     {'exc': 'LookupError', 'msg': 'boom %s'},
+    {'exc': 'Group1', 'msg': 'boom %s'},
     {'exc': 'ArithmeticError', 'msg': 'boom %s'},
     {'exc': 'RuntimeError', 'msg': 'boom %s in file data.txt'},
 ]
@@ -100,7 +101,7 @@ def gen_steps(rng, cfg, pfx, modname):
               'pts': ['%ss%d%s' % (pfx, i, 'abc'[j]) for j in range(npts)],
               'ps2': rng.random() < cfg.p_ps2,
               'sep': rng.choice(cfg.seps) if i > 0 else 'none'}
-        if form in ('tq', 'tqprint'):
+        if form in ('tq', 'tqprint', 'tqdirective'):
             # unprefixed string lines followed by a '...' line are not a layout the
             # docs describe (the grouping pass cuts the statement in two): refuse
             st['ps2'] = False
@@ -153,7 +154,7 @@ def gen_steps(rng, cfg, pfx, modname):
             st['ps2'] = False
         if form == 'coroexpr':
             st['ps2'] = False
-        if cfg.p_inline_dir and form not in W.NOCODE_FORMS and form not in ('tq', 'tqprint', 'bgtask', 'defreprclass') and rng.random() < cfg.p_inline_dir:
+        if cfg.p_inline_dir and form not in W.NOCODE_FORMS and form not in ('tq', 'tqprint', 'tqdirective', 'bgtask', 'defreprclass') and rng.random() < cfg.p_inline_dir:
             st['inline'] = rng.choice(HARMLESS_DIRS)
             st['inline_at'] = rng.choice(['first', 'last'])
             chunk_start = True      # an inline directive makes the statement a part of its own
@@ -185,6 +186,8 @@ def gen_steps(rng, cfg, pfx, modname):
                     e['msg'] = e['msg'] % W.tok(st['pts'][0])
                 if want in ('tbell', 'tbell2') and not e['msg']:
                     want = 'tb'
+                if e['exc'] == 'Group1' and rng.random() < 0.4:
+                    want = 'tbmember'       # names the member instead of the group: must fail
                 if form == 'chainexc':
                     st['raise_at'] = 1      # the exception that propagates comes from the handler
                     if rng.random() < 0.4:
@@ -240,7 +243,7 @@ def indent_region(rng, steps):
     k = j
     while k < len(steps) - 1 and not steps[k].get('want') and steps[k + 1].get('sep', 'none') == 'none':
         k += 1
-    if any(st['form'] in ('tq', 'tqprint') for st in steps[j:k + 1]):
+    if any(st['form'] in ('tq', 'tqprint', 'tqdirective') for st in steps[j:k + 1]):
         return False
     width = rng.choice([2, 4, 4, 8])
     for st in steps[j:k + 1]:
@@ -335,7 +338,7 @@ def add_skips(rng, steps, unmet='env:SIM_NOT_SET'):
         steps.insert(rng.randint(0, n), block('-'))
         steps.insert(0, block('+'))
     else:
-        cands = [st for st in steps if st['form'] not in W.NOCODE_FORMS and st['form'] not in ('tq', 'tqprint', 'bgtask', 'defreprclass') and not st.get('inline')]
+        cands = [st for st in steps if st['form'] not in W.NOCODE_FORMS and st['form'] not in ('tq', 'tqprint', 'tqdirective', 'bgtask', 'defreprclass') and not st.get('inline')]
         for st in rng.sample(cands, min(len(cands), rng.randint(1, 2))):
             st['inline'] = [['+', 'SKIP', None]]
             st['inline_at'] = rng.choice(['first', 'last'])
